@@ -12,18 +12,18 @@ def addRelKinds (ks : List String) : List PatEl → List PatEl
   | .rel v ks0 p :: r => .rel v (ks0 ++ ks) p :: r
   | el :: r => el :: addRelKinds ks r
 
-/-- `old` selects the rewriter before hooks/C10-fix7; `none` = Prepare refuses (old rewriter only) -/
-def prepareQ (old : Bool) (q : Query) : Option Query :=
+/-- `fix7 = false`: the rewriter as it is (`none` = Prepare refuses); `fix7 = true`: the proposal hooks/C10-fix7 -/
+def prepareQ (fix7 : Bool) (q : Query) : Option Query :=
   let q1 := liftQ 0 q
   match q1.where_ with
   | none => some q1
   | some e =>
-    if old then
-      match prepareOld e with
+    if !fix7 then
+      match prepare e with
       | some p => some { q1 with pattern := addRelKinds p.1 q1.pattern, where_ := p.2 }
       | none => none
     else
-      let p := prepare e
+      let p := prepareFix7 e
       some { q1 with pattern := addRelKinds p.1 q1.pattern, where_ := p.2 }
 
 end Dawgs.C10
